@@ -156,16 +156,39 @@ pub broadcast axiom fn axiom_strref_key_model()
 #[verifier::external_body]
 pub fn load_project(project_dir: &PathBuf) -> (r: Result<Project>)
 { unimplemented!() }
-/// `canonicalize_dir` of the root directory
-#[verifier::external_body]
-pub fn canonicalize_dir(dir: &PathBuf) -> (r: Result<PathBuf>)
-{ unimplemented!() }
+/// [C18.canonical] the path is the canonical name of its directory: absolute, no `.`/`..`, links resolved - one
+/// name per directory, whichever way it was reached (A-fs: this is what `dunce::canonicalize` returns)
+pub uninterp spec fn is_canonical(p: PathBuf) -> bool;
+pub open spec fn all_canonical(ps: Map<PathBuf, Project>) -> bool {
+    forall|d: PathBuf| #![trigger ps.contains_key(d)] ps.contains_key(d) ==> is_canonical(d)
+}
+
+/// `canonicalize_dir`: `dunce::canonicalize(dir)` with the error reworded (A-fs: real signature, body not verified,
+/// its text is fingerprinted)
+//@fn src/config/yaml/mod.rs canonicalize_dir assumed ret=r
+//@replace `dir: &Path` => `dir: &PathBuf` rule=R11 pre why=`std::path::Path and PathBuf are both the prelude's opaque PathBuf in this unit`
+//@contract
+    ensures
+        r matches Ok(d) ==> is_canonical(d),
+//@end
 /// `project.imports.iter().map(|(name, dir)| canonicalize_dir(project_dir.join(dir)).map(|d| (name.clone(), d))).collect::<Result<Vec<_>>>()`
 /// (A-all + A-yaml: one (import name, canonical directory) pair per import)
 #[verifier::external_body]
 pub fn import_paths_of(project: &Project, project_dir: &PathBuf) -> (r: Result<Vec<(String, PathBuf)>>)
-    ensures r matches Ok(v) ==> forall|i: int| #![trigger v@[i]] 0 <= i < v@.len() ==> project.imports@.contains_key(v@[i].0),
+    ensures r matches Ok(v) ==> forall|i: int| #![trigger v@[i]] 0 <= i < v@.len() ==> project.imports@.contains_key(v@[i].0) && is_canonical(v@[i].1),
 { unimplemented!() }
+
+//@fn src/config/yaml/mod.rs Config::load::add_project#closure1 as=name_and_dir params=`dir: PathBuf, import_name: &String` bind rty=`(String, PathBuf)` ret=r
+//@contract
+    ensures
+        r.0 == *import_name && r.1 == dir,
+//@end
+//@fn src/config/yaml/mod.rs Config::load::add_project#closure0 as=import_path_of params=`import_name: &String, import_dir: &String, project_dir: &PathBuf` rty=`Result<(String, PathBuf)>` ret=r
+//@closure 1 skeleton=`canonicalize_dir(&project_dir.join(import_dir)) .map(<CLOSURE>)` becomes=`(match canonicalize_dir(&project_dir.join(import_dir)) { Ok(dir) => Ok(name_and_dir(dir, import_name)), Err(e) => Err(e) })`
+//@contract
+    ensures
+        /*[C18.canonical]*/ r matches Ok(pair) ==> pair.0 == *import_name && is_canonical(pair.1),
+//@end
 /// `res.and_then(closure)` for the closure `import_name_check` (A-all: applies the closure to an Ok)
 #[verifier::external_body]
 pub fn and_then_import_check(res: Result<()>, projects: &HashMap<PathBuf, Project>, import_dir: &PathBuf, import_name: &String) -> (r: Result<()>)
@@ -213,9 +236,12 @@ pub open spec fn ext_p(a: Map<PathBuf, Project>, b: Map<PathBuf, Project>) -> bo
 //@closure 0 skeleton=`let import_paths = project .imports .iter() .map(<CLOSURE>) .collect::<Result<Vec<_>>>()?;` becomes=`let import_paths = import_paths_of(&project, &project_dir)?;`
 //@closure 2 skeleton=`add_project(import_dir.clone(), projects) .and_then(<CLOSURE>) .with_context(|| format!("Failed to import {}", &import_name))?;` becomes=`ctx(and_then_import_check(add_project(import_dir.clone(), projects), projects, &import_dir, &import_name))?;`
 //@contract
+    requires
+        is_canonical(project_dir), all_canonical(old(projects)@),
     ensures
         r is Ok ==> final(projects)@.contains_key(project_dir),
         ext_p(old(projects)@, final(projects)@),
+        /*[C18.canonical]*/ all_canonical(final(projects)@),
 //@pre
         broadcast use group_keys;
         broadcast use vstd::std_specs::hash::group_hash_axioms;
@@ -223,6 +249,8 @@ pub open spec fn ext_p(a: Map<PathBuf, Project>, b: Map<PathBuf, Project>) -> bo
             invariant
                 projects@.contains_key(project_dir),
                 ext_p(old(projects)@, projects@),
+                /*[C18.canonical]*/ all_canonical(projects@),
+                forall|i: int| #![trigger it.seq()[i]] 0 <= i < it.seq().len() ==> is_canonical(it.seq()[i].1),
 //@loopbody
             broadcast use group_keys;
             broadcast use vstd::std_specs::hash::group_hash_axioms;
@@ -240,6 +268,7 @@ impl YamlConfig {
     ensures
         r matches Ok(c) ==> c.projects@.contains_key(c.root_project_dir),
         /*[C14.unique]*/ r matches Ok(c) ==> names_distinct(c.projects@),
+        /*[C18.canonical]*/ r matches Ok(c) ==> all_canonical(c.projects@),
 //@pre
         broadcast use group_keys;
         broadcast use axiom_strref_key_model;
@@ -248,6 +277,7 @@ impl YamlConfig {
 //@loop 0 binder=it
             invariant
                 projects@.contains_key(root_project_dir),
+                all_canonical(projects@),
                 it.seq().unref().to_set() == projects@.values(),
                 forall|v: Project| #![trigger it.seq().take(it.index@ as int).unref().to_set().contains(v)] it.seq().take(it.index@ as int).unref().to_set().contains(v) && v.name is Some ==> project_names@.contains(&v.name->Some_0),
                 /*[C14.unique]*/ distinct_in(it.seq().take(it.index@ as int).unref().to_set()),
@@ -834,13 +864,13 @@ pub proof fn lemma_shrinks_trans(a: &Config, b: &Config, c: &Config)
             proof {
                 // [C09.acyclic] this target is the last element of the chain its dependencies were resolved under
                 assert(targets_chain@[targets_chain@.len() - 1] == target_id);
-                assert(!dt1.contains_key(*target_id));
-                assert(extends(dt1, fin));
-                assert(chain_untouched(dt0, fin, parent_targets@)) by {
+                assert(/*[C09.acyclic]*/ !dt1.contains_key(*target_id));
+                assert(/*[C09.acyclic]*/ extends(dt1, fin));
+                assert(/*[C09.acyclic]*/ chain_untouched(dt0, fin, parent_targets@)) by {
                     assert forall|i: int| 0 <= i < parent_targets@.len() && !dt0.contains_key(*#[trigger] parent_targets@[i]) implies !fin.contains_key(*parent_targets@[i]) by {
                         assert(targets_chain@[i] == parent_targets@[i]);
-                        assert(!dt1.contains_key(*parent_targets@[i]));
-                        assert(parent_targets@.contains(parent_targets@[i]));
+                        assert(/*[C09.acyclic]*/ !dt1.contains_key(*parent_targets@[i]));
+                        assert(/*[C09.acyclic]*/ parent_targets@.contains(parent_targets@[i]) && *parent_targets@[i] != *target_id);
                     }
                 }
                 // [C09.only-reachable] every key added by this call is reachable from this target
